@@ -137,7 +137,7 @@ func runBehaviour(p eng.Profile, b behaviour, extraRestarts int, res *engOutput)
 		opName, _ := st.Op["op"].(string)
 		// frame condition of every action of Kektor.tla except the re-encoding ones (VCompress, a restart): the stored
 		// vector of an id the call does not name is UNCHANGED -- checked on the exact values VGet returns, not on tokens
-		if opName != "VCompress" && opName != "Reopen" && opName != "VDeleteCut" && !rawReported {
+		if opName != "VCompress" && opName != "Reopen" && opName != "VDeleteCut" && opName != "SnapshotCut" && !rawReported {
 			named := map[string]bool{}
 			for _, v := range st.Op {
 				if sv, ok := v.(string); ok {
@@ -167,7 +167,7 @@ func runBehaviour(p eng.Profile, b behaviour, extraRestarts int, res *engOutput)
 				Detail: fmt.Sprintf("spec says %s, engine returned %s (%s)", want, got, r.LastErr)})
 			offModel = true
 		}
-		if opName == "Reopen" {
+		if opName == "Reopen" || opName == "SnapshotCut" {
 			res.Restarts++
 			res.Checks++
 			if d := eng.Diff("obs", prev, cur); len(d) > 0 {
